@@ -797,7 +797,7 @@ theorem applyEvict_evFold (s : State) (e : Evicted) (hw : 0 ≤ e.2.2) : EvFold 
 theorem evSum_cons (e : Evicted) (evs : List Evicted) : evSum (e :: evs) = e.2.2 + evSum evs := by
   simp [evSum]
 
-theorem foldl_applyEvict : ∀ (evs : List Evicted) (s : State), (∀ e ∈ evs, 0 ≤ e.2.2) →
+theorem foldl_applyEvict_StatsInv : ∀ (evs : List Evicted) (s : State), (∀ e ∈ evs, 0 ≤ e.2.2) →
     EvFold s (evs.foldl applyEvict s) (evSum evs) := by
   intro evs
   induction evs with
@@ -1060,7 +1060,7 @@ theorem workerPut_ok {s : State} {id hash : Nat} {w : Int} {k v : Nat} {ttl : Op
     · cases h
     · rename_i r hm
       obtain ⟨hpos, hnn, hused, hst⟩ := maybeAdd_acct hwt.nonneg hw hm
-      have F := foldl_applyEvict r.evicted { s with adm := r.adm } hpos
+      have F := foldl_applyEvict_StatsInv r.evicted { s with adm := r.adm } hpos
       have hk1 : KeyI (r.evicted.foldl applyEvict { s with adm := r.adm }) := F.key (hk.congr rfl)
       have habs1 := F.absent k habs
       simp only [] at h
